@@ -4,6 +4,7 @@
 package graphql
 
 import (
+	"fmt"
 	"errors"
 	"strconv"
 	"strings"
@@ -110,7 +111,9 @@ func c16Exec(maxFails int, modes bool, width int) {
 	sch := xBuildSchema(cfg)
 	root := xFixedRoot()
 	root.Items[1].Sub = &xSub{C: nondet.Int64("i2.c")}
-	nodes := []*xNode{xF("items", xF("v"), xF("sub", xF("c")), xAs("w", xF("v")), xF("e"), xF("subs", xF("c"))), xF("one", xF("sub", xF("c")))}
+	// Item.v is selected only under aliases and Sub.c under an alias below an aliased
+	// parent, so that a path built from field names instead of response keys shows
+	nodes := []*xNode{xF("items", xAs("v1", xF("v")), xF("sub", xF("c")), xAs("w", xF("v")), xF("e"), xF("subs", xF("c"))), xAs("o", xF("one", xAs("s", xF("sub", xAs("cc", xF("c"))))))}
 	var sched WorkScheduler = &xChoiceScheduler{width: width, name: "sched"}
 	if nondet.Choice("lifo", 2) == 1 {
 		sched = &xLIFOScheduler{}
@@ -166,7 +169,12 @@ func VerifC16Sanitize() {
 	var err error
 	safe := false
 	msg := ""
-	switch nondet.Choice("kind", 6) {
+	switch nondet.Choice("kind", 8) {
+	case 6:
+		// an error that is not marked safe but wraps (Unwrap) a safe one stays unsafe
+		err = fmt.Errorf("secret context: %w", NewSafeError("inner visible"))
+	case 7:
+		err = fmt.Errorf("secret context: %w", NewClientError("inner client"))
 	case 0:
 		err = errors.New("secret")
 	case 1:
@@ -191,7 +199,7 @@ func VerifC16Sanitize() {
 		nondet.Assert(still, "safe-unwrapped")
 	} else {
 		nondet.Assert(got == "Internal server error", "generic-otherwise")
-		nondet.Assert(!strings.Contains(got, "secret"), "generic-otherwise")
+		nondet.Assert(!strings.Contains(got, "secret") && !strings.Contains(got, "inner"), "generic-otherwise")
 	}
 	nondet.Cover("sanitize")
 }
